@@ -94,6 +94,7 @@ fn set_then_use(c: i64, k: i64) -> (Instruction, Instruction) {
     };
     (mk(lit(c)), mk(hid(c)))
 }
+#[cfg(feature = "verif_experimental")] // 1500 s timeout / 14 GB
 #[kani::proof]
 #[kani::unwind(5)]
 #[kani::stub(alloc::fmt::format, crate::verif_common::stub_format)]
@@ -108,6 +109,7 @@ pub fn propagate_set_into_use() {
 
 /// shadowing inside a nested block must not leak into the enclosing scope:
 ///   { x := c1 ; { x := c2 } ; x }
+#[cfg(feature = "verif_experimental")] // 1500 s timeout / 14 GB
 #[kani::proof]
 #[kani::unwind(5)]
 #[kani::stub(alloc::fmt::format, crate::verif_common::stub_format)]
@@ -133,6 +135,7 @@ pub fn propagate_respects_block_scope() {
 }
 
 /// branch pruning with a constant condition keeps the value and the effects of the taken branch
+#[cfg(feature = "verif_experimental")] // 1500 s timeout / 14 GB
 #[kani::proof]
 #[kani::unwind(5)]
 #[kani::stub(alloc::fmt::format, crate::verif_common::stub_format)]
